@@ -24,6 +24,7 @@ EXPLANATION = (
     ' (A7) a sort-based selection ranks by the total first; condition tables may be iterated through loop variables.'
     " (A9) a failed step's None entry is not published as a substructure, or the published lists are length-checked."
     " (A10) the search stage keeps nothing across batches (shared with C06-B4 on the functions reachable from MCSSearch.find). (A11) a row's total is a sum over its entries, each counted on its own."
+    ' (A5) follows chained comprehensions and accepts one merged call site for both directions.'
 )
 ASSUMPTIONS = ["rdFMCS / RascalMCES return substructures of their inputs (not decided)"]
 
